@@ -647,4 +647,89 @@ Section L.
         destruct (Nat.eqb_spec b i); [congruence|]. destruct (Nat.eqb_spec b j); [congruence|]. cbn [negb andb].
         apply K. cbn [snd]. lia.
   Qed.
+
+  (* ---------------- union linkage: the user distance on the union ---------------- *)
+
+  (* what set_to_last yields: the last entry paired with every live entry, itself included, in order *)
+  Lemma comb_last_spec {A} (inner : list (option A)) (u : A) ps : comb_last (inner ++ [Some u]) = Ok ps ->
+    ps = map (fun b => (u, b)) (somes' inner ++ [u]).
+  Proof.
+    unfold comb_last. intros H. rewrite app_length in H. cbn [length] in H.
+    replace (length inner + 1 - 1) with (length inner) in H by lia.
+    apply comb_run_spec in H; [|lia|rewrite app_length; cbn [length]; lia].
+    rewrite H. unfold comb_spec. rewrite app_length. cbn [length]. replace (length inner + 1 - S (length inner)) with 0 by lia.
+    cbn [seq flat_map]. rewrite app_nil_r. unfold row_from.
+    rewrite nth_error_app2, Nat.sub_diag by lia. cbn [nth_error skipn].
+    f_equal. clear. induction inner as [|[x|] l IH]; cbn [app somes']; [reflexivity|f_equal; exact IH|exact IH].
+  Qed.
+
+  Lemma union_fold_vals lastidx (f : group -> F) : forall (l : list (option group)) start (m : dmat) ds rest st',
+    (forall k, k < length l -> start + k <> lastidx) ->
+    ds = map f (somes' l) ++ rest ->
+    foldM (fun (st : dmat * list F) (p : nat * option group) =>
+             let (m, ds) := st in
+             match snd p with
+             | None => Ok (m, ds)
+             | Some _ => match ds with
+                         | [] => Panic
+                         | v :: ds' => Ok (dm_insert F (fst p, lastidx) v m, ds')
+                         end
+             end) (combine (seq start (length l)) l) (m, ds) = Ok st' ->
+    (forall k, snd k <> lastidx -> dm_get F k (fst st') = dm_get F k m) /\
+    (forall x, x < start -> dm_get F (x, lastidx) (fst st') = dm_get F (x, lastidx) m) /\
+    forall k g, nth_error l k = Some (Some g) -> dm_get F (start + k, lastidx) (fst st') = Some (f g).
+  Proof.
+    induction l as [|o l IH]; intros start m ds rest st' Hne Eds H; cbn [length seq combine foldM] in H.
+    - injection H as <-. cbn [fst]. split; [reflexivity|]. split; [reflexivity|]. intros k g Hk. destruct k; discriminate.
+    - cbn [snd fst] in H. assert (forall k, k < length l -> S start + k <> lastidx) as Hne' by (intros k Hk; specialize (Hne (S k)); cbn [length] in Hne; lia).
+      destruct o as [g0|].
+      + cbn [somes' map app] in Eds. subst ds. cbn [bind] in H.
+        destruct (IH (S start) _ _ rest st' Hne' eq_refl H) as (K & B & V).
+        split; [|split].
+        * intros k Hk. rewrite (K k Hk), dm_get_insert. destruct (keq k (start, lastidx)) eqn:E; [|reflexivity].
+          apply keq_true in E. subst k. cbn in Hk. congruence.
+        * intros x Hx. rewrite (B x ltac:(lia)), dm_get_insert. destruct (keq (x, lastidx) (start, lastidx)) eqn:E; [|reflexivity].
+          apply keq_true in E. injection E as ->. lia.
+        * intros k g Hk. destruct k as [|k]; cbn [nth_error] in Hk.
+          -- injection Hk as ->. rewrite Nat.add_0_r, (B start ltac:(lia)), dm_get_insert, keq_refl. reflexivity.
+          -- replace (start + S k) with (S start + k) by lia. apply (V k g Hk).
+      + cbn [somes'] in Eds. cbn [bind] in H. destruct (IH (S start) m ds rest st' Hne' Eds H) as (K & B & V).
+        split; [exact K|]. split; [intros x Hx; apply B; lia|].
+        intros k g Hk. destruct k as [|k]; cbn [nth_error] in Hk; [discriminate|].
+        replace (start + S k) with (S start + k) by lia. apply (V k g Hk).
+  Qed.
+
+  (* union: the distance from every other live node to the new cluster is the user's distance between
+     the union of the two merged sets and that node's set; all other distances are kept *)
+  Theorem union_round_distances s s' i j d gi gj : LI s -> union_round F flt dist s = Ok (Some s') ->
+    closest F flt (l_dm F s) = Some (i, j, d) ->
+    nth_error (l_sets F s) i = Some (Some gi) -> nth_error (l_sets F s) j = Some (Some gj) ->
+    (forall idx g, nth_error (l_sets F s) idx = Some (Some g) -> idx <> i -> idx <> j ->
+       dm_get F (idx, length (l_sets F s)) (l_dm F s') = Some (dist (set_extend gi gj) g)) /\
+    (forall a b, a <> i -> a <> j -> b <> i -> b <> j -> b <> length (l_sets F s) ->
+       dm_get F (a, b) (l_dm F s') = dm_get F (a, b) (l_dm F s)) /\
+    nth_error (l_sets F s') (length (l_sets F s)) = Some (Some (set_extend gi gj)).
+  Proof.
+    intros I H Ec Hgi Hgj. unfold union_round in H. rewrite Ec in H.
+    destruct (new_cluster F s i j d) as [cl| | |]; cbn [bind] in H; try discriminate.
+    rewrite Hgi, Hgj in H.
+    set (sets1 := set_nth j None (set_nth i None (l_sets F s))) in *.
+    assert (length sets1 = length (l_sets F s)) as El by (unfold sets1; rewrite !set_nth_length; reflexivity).
+    destruct (comb_last (sets1 ++ [Some (set_extend gi gj)])) as [pairs| | |] eqn:Ep; cbn [bind] in H; try discriminate.
+    apply comb_last_spec in Ep.
+    assert (length (sets1 ++ [Some (set_extend gi gj)]) - 1 = length sets1) as Elast by (rewrite app_length; cbn [length]; lia).
+    rewrite Elast in H. rewrite (firstn_app_exact sets1 _ _ eq_refl) in H.
+    match type of H with context [foldM ?f ?l ?st0] => destruct (foldM f l st0) as [r| | |] eqn:Ef end; cbn [bind] in H; try discriminate.
+    injection H as <-. cbn [l_dm l_sets].
+    destruct (union_fold_vals (length sets1) (dist (set_extend gi gj)) sets1 0 (retain_not F i j (l_dm F s)) (map (fun p : group * group => dist (fst p) (snd p)) pairs) [dist (set_extend gi gj) (set_extend gi gj)] r) with (3 := Ef) as (K & _ & V).
+    - intros k Hk. lia.
+    - rewrite Ep, map_map, map_app. reflexivity.
+    - split; [|split].
+      + intros idx g Hg H1 H2. rewrite <- El. rewrite <- (V idx g); [reflexivity|].
+        unfold sets1. rewrite !set_nth_get. destruct (Nat.eqb_spec idx j); [congruence|]. destruct (Nat.eqb_spec idx i); [congruence|]. exact Hg.
+      + intros a b A1 A2 B1 B2 B3. rewrite (K (a, b)) by (cbn [snd]; lia). rewrite dm_get_retain. cbn [fst snd].
+        destruct (Nat.eqb_spec a i); [congruence|]. destruct (Nat.eqb_spec a j); [congruence|].
+        destruct (Nat.eqb_spec b i); [congruence|]. destruct (Nat.eqb_spec b j); [congruence|]. reflexivity.
+      + rewrite <- El, nth_error_app2, Nat.sub_diag by lia. reflexivity.
+  Qed.
 End L.
